@@ -122,6 +122,12 @@ theorem docAtoms_trailingCommaDoc (fixed : Bool) (tc : Option WTok) :
   | none => simp [trailingCommaDoc, trailingCommaAtoms, docAtoms]
   | some t => cases fixed <;> simp [trailingCommaDoc, trailingCommaAtoms, docAtoms, docAtoms_commentsOnlyDoc]
 
+theorem docAtoms_accSep (r : Accs) : docAtoms (accSep r) = [] := by cases r <;> simp [accSep, docAtoms]
+
+theorem docAtoms_callArgs (kt kc : Bool) (iw : Nat) (args : Args) (d : Doc) (h : docAtoms d = argsAtomsW kt kc args) :
+    docAtoms (callArgsDoc iw args.isNil d) = argsAtomsW kt kc args := by
+  cases args <;> simp_all [callArgsDoc, Args.isNil, docAtoms, argsAtomsW]
+
 theorem docAtoms_nil : docAtoms Doc.nil = [] := by simp [docAtoms]
 theorem docAtoms_line : docAtoms Doc.line = [] := by simp [docAtoms]
 
@@ -160,11 +166,13 @@ theorem chainDocW_atoms (fixed : Bool) (iw : Nat) (k : ChainKind) : ∀ c : Chai
 theorem accsDocW_atoms (fixed : Bool) (iw : Nat) : ∀ a : Accs, docAtoms (accsDocW fixed iw a) = accsAtomsW false fixed a
   | .nil => by simp [accsDocW, accsAtomsW, docAtoms]
   | .field dot name rest => by
-    simp [accsDocW, accsAtomsW, docAtoms, docAtoms_tokDoc _ .nil docAtoms_nil, accsDocW_atoms fixed iw rest]
+    simp [accsDocW, accsAtomsW, docAtoms, docAtoms_tokDoc _ .nil docAtoms_nil, docAtoms_accSep, accsDocW_atoms fixed iw rest]
   | .call l args r rest => by
-    simp [accsDocW, accsAtomsW, docAtoms, docAtoms_tokDoc _ .nil docAtoms_nil, argsDocW_atoms fixed iw args, accsDocW_atoms fixed iw rest]
+    simp [accsDocW, accsAtomsW, docAtoms, docAtoms_tokDoc _ .nil docAtoms_nil, docAtoms_accSep,
+      docAtoms_callArgs false fixed iw args _ (argsDocW_atoms fixed iw args), accsDocW_atoms fixed iw rest]
   | .index l e r rest => by
-    simp [accsDocW, accsAtomsW, docAtoms, docAtoms_tokDoc _ .nil docAtoms_nil, toDocW_atoms fixed iw e, accsDocW_atoms fixed iw rest]
+    simp [accsDocW, accsAtomsW, docAtoms, docAtoms_tokDoc _ .nil docAtoms_nil, docAtoms_accSep, toDocW_atoms fixed iw e,
+      accsDocW_atoms fixed iw rest]
 end
 
 theorem commentsOf_append (a b : List Atom) : commentsOf (a ++ b) = commentsOf a ++ commentsOf b := by
@@ -272,6 +280,12 @@ theorem docSafe_tokDoc (t : WTok) (next : Doc) (hn : docSafe false next = some f
     docSafe false (tokDoc t next) = some false :=
   docSafe_addComment _ _ _ _ (by simp [docSafe]) hn
 
+theorem docSafe_accSep (r : Accs) : docSafe false (accSep r) = some false := by cases r <;> simp [accSep, docSafe]
+
+theorem docSafe_callArgs (iw : Nat) (b : Bool) (d : Doc) (h : docSafe false d = some false) :
+    docSafe false (callArgsDoc iw b d) = some false := by
+  cases b <;> simp [callArgsDoc, docSafe, h]
+
 theorem docSafe_nil : docSafe false Doc.nil = some false := by simp [docSafe]
 theorem docSafe_line : docSafe false Doc.line = some false := by simp [docSafe]
 
@@ -315,11 +329,371 @@ theorem chainDocW_safe (fixed : Bool) (iw : Nat) (k : ChainKind) : ∀ c : Chain
       toDocW_safe fixed iw e, chainDocW_safe fixed iw _ rest]
 theorem accsDocW_safe (fixed : Bool) (iw : Nat) : ∀ a : Accs, docSafe false (accsDocW fixed iw a) = some false
   | .nil => by simp [accsDocW, docSafe]
-  | .field dot name rest => by simp [accsDocW, docSafe, docSafe_tokDoc _ .nil docSafe_nil, accsDocW_safe fixed iw rest]
+  | .field dot name rest => by
+    simp [accsDocW, docSafe, docSafe_tokDoc _ .nil docSafe_nil, docSafe_accSep, accsDocW_safe fixed iw rest]
   | .call l args r rest => by
-    simp [accsDocW, docSafe, docSafe_tokDoc _ .nil docSafe_nil, argsDocW_safe fixed iw args, accsDocW_safe fixed iw rest]
+    simp [accsDocW, docSafe, docSafe_tokDoc _ .nil docSafe_nil, docSafe_accSep,
+      docSafe_callArgs iw _ _ (argsDocW_safe fixed iw args), accsDocW_safe fixed iw rest]
   | .index l e r rest => by
-    simp [accsDocW, docSafe, docSafe_tokDoc _ .nil docSafe_nil, toDocW_safe fixed iw e, accsDocW_safe fixed iw rest]
+    simp [accsDocW, docSafe, docSafe_tokDoc _ .nil docSafe_nil, docSafe_accSep, toDocW_safe fixed iw e, accsDocW_safe fixed iw rest]
 end
+
+/-! ### the policy level -/
+
+theorem wtokAtoms_noLead (t : WTok) : wtokAtoms t = t.leading.map Atom.com ++ wtokAtoms t.noLead := by
+  simp [wtokAtoms, WTok.noLead]
+
+theorem opsAtoms_cons (t : WTok) (ts : List WTok) : opsAtoms (t :: ts) = wtokAtoms t ++ opsAtoms ts := rfl
+
+/-- hoisting the leading comments of the first token does not change the atom sequence -/
+theorem cstAtomsW_clearFirst (kt kc : Bool) : ∀ c : Cst,
+    cstAtomsW kt kc c = (firstLeading c).map Atom.com ++ cstAtomsW kt kc (clearFirstLeading c)
+  | .leaf t => by simp [firstLeading, clearFirstLeading, cstAtomsW, wtokAtoms_noLead t]
+  | .paren l e r => by simp [firstLeading, clearFirstLeading, cstAtomsW, wtokAtoms_noLead l]
+  | .unary [] e => by
+    have := cstAtomsW_clearFirst kt kc e
+    simp [firstLeading, clearFirstLeading, cstAtomsW, opsAtoms]; exact this
+  | .unary (t :: ts) e => by simp [firstLeading, clearFirstLeading, cstAtomsW, opsAtoms, wtokAtoms_noLead t]
+  | .chain k first rest => by
+    have := cstAtomsW_clearFirst kt kc first
+    simp only [firstLeading, clearFirstLeading, cstAtomsW]; rw [this]; simp
+  | .rel a op b => by
+    have := cstAtomsW_clearFirst kt kc a
+    simp only [firstLeading, clearFirstLeading, cstAtomsW]; rw [this]; simp
+  | .isIn a isT ty inT e => by
+    have := cstAtomsW_clearFirst kt kc a
+    simp only [firstLeading, clearFirstLeading, cstAtomsW]; rw [this]; simp
+  | .ite i c t a e b => by simp [firstLeading, clearFirstLeading, cstAtomsW, wtokAtoms_noLead i]
+  | .brack l args r => by simp [firstLeading, clearFirstLeading, cstAtomsW, wtokAtoms_noLead l]
+  | .recInit k colon v => by
+    have := cstAtomsW_clearFirst kt kc k
+    simp only [firstLeading, clearFirstLeading, cstAtomsW]; rw [this]; simp
+  | .member item accs => by
+    have := cstAtomsW_clearFirst kt kc item
+    simp only [firstLeading, clearFirstLeading, cstAtomsW]; rw [this]; simp
+
+theorem docAtoms_hardline : docAtoms Doc.hardline = [] := by simp [docAtoms]
+theorem docAtoms_space : docAtoms Doc.space = [] := by simp [docAtoms]
+
+theorem docAtoms_trailingDoc (t : List Char) (next : Doc) (hn : docAtoms next = []) :
+    docAtoms (trailingDoc t next) = (if t.isEmpty then [] else [Atom.com t]) := by
+  unfold trailingDoc; split <;> simp [docAtoms, hn]
+
+theorem docAtoms_annotDoc (a : AnnotCst) : docAtoms (annotDoc a) = annotAtoms a := by
+  obtain ⟨atT, key, value⟩ := a
+  cases value with
+  | none => simp [annotDoc, annotAtoms, docAtoms, docAtoms_tokDoc _ .nil docAtoms_nil]
+  | some v =>
+    obtain ⟨l, v, r⟩ := v
+    simp [annotDoc, annotAtoms, docAtoms, docAtoms_tokDoc _ .nil docAtoms_nil, docAtoms_tokDoc _ .hardline docAtoms_hardline]
+
+theorem docAtoms_annotsDoc (as : List AnnotCst) : docAtoms (annotsDoc as) = annotsAtoms as := by
+  induction as with
+  | nil => simp [annotsDoc, annotsAtoms, docAtoms]
+  | cons a as ih => simp [annotsDoc, annotsAtoms, docAtoms, docAtoms_annotDoc, ih]
+
+theorem docAtoms_isPartDoc (iw : Nat) (x : Option (WTok × Cst)) :
+    docAtoms (isPartDoc iw x) = (match x with | none => [] | some (isT, ty) => wtokAtoms isT ++ cstAtomsW false true ty) := by
+  cases x with
+  | none => simp [isPartDoc, docAtoms]
+  | some x =>
+    obtain ⟨isT, ty⟩ := x
+    simp [isPartDoc, docAtoms, docAtoms_tokDoc _ .nil docAtoms_nil, docAtoms_addComment _ _ _ _ docAtoms_nil, toDocFixed, toDocW_atoms]
+
+theorem docAtoms_varDefDoc (iw : Nat) (v : VarDefCst) : docAtoms (varDefDoc iw v) = varDefAtomsW false true v := by
+  obtain ⟨var, isPart, ineq⟩ := v
+  cases isPart <;> cases ineq with
+  | none =>
+    simp [varDefDoc, varDefAtomsW, docAtoms, docAtoms_tokDoc _ .nil docAtoms_nil, docAtoms_isPartDoc]
+  | some x =>
+    obtain ⟨op, rhs⟩ := x
+    simp [varDefDoc, varDefAtomsW, docAtoms, docAtoms_tokDoc _ .nil docAtoms_nil, docAtoms_isPartDoc, docAtoms_leadingDoc,
+      docAtoms_trailingDoc _ _ docAtoms_nil, toDocFixed, toDocW_atoms, wtokAtoms]
+
+theorem docAtoms_condDoc (iw : Nat) (c : CondCst) : docAtoms (condDoc iw c) = condAtomsW false true c := by
+  obtain ⟨kw, lb, expr, rb⟩ := c
+  cases expr with
+  | none =>
+    simp [condDoc, condAtomsW, docAtoms, docAtoms_tokDoc _ .nil docAtoms_nil, docAtoms_leadingDoc,
+      docAtoms_trailingDoc _ _ docAtoms_line, docAtoms_addComment _ _ _ _ docAtoms_nil, wtokAtoms]
+  | some e =>
+    simp [condDoc, condAtomsW, docAtoms, docAtoms_tokDoc _ .nil docAtoms_nil, docAtoms_leadingDoc,
+      docAtoms_trailingDoc _ _ docAtoms_line, docAtoms_addComment _ _ _ _ docAtoms_nil, wtokAtoms, toDocFixed, toDocW_atoms,
+      cstAtomsW_clearFirst false true e]
+
+theorem docAtoms_condsDoc (iw : Nat) (cs : List CondCst) : docAtoms (condsDoc iw cs) = condsAtomsW false true cs := by
+  induction cs with
+  | nil => simp [condsDoc, condsAtomsW, docAtoms]
+  | cons c cs ih =>
+    cases cs with
+    | nil => simp [condsDoc, condsAtomsW, docAtoms_condDoc]
+    | cons c' cs' => simp [condsDoc, condsAtomsW, docAtoms, docAtoms_condDoc] at ih ⊢; exact ih
+
+theorem docAtoms_droppedCommaDoc (tc : Option WTok) : docAtoms (droppedCommaDoc tc) = trailingCommaAtoms false true tc := by
+  cases tc with
+  | none => simp [droppedCommaDoc, trailingCommaAtoms, docAtoms_addComment _ _ _ _ docAtoms_nil, docAtoms]
+  | some t => simp [droppedCommaDoc, trailingCommaAtoms, docAtoms_commentsOnlyDoc]
+
+theorem docAtoms_scopeDoc (iw : Nat) (p : PolicyCst) :
+    docAtoms (scopeDoc iw p) = varDefAtomsW false true p.principal ++ wtokAtoms p.comma1 ++
+      varDefAtomsW false true p.action ++ wtokAtoms p.comma2 ++
+      varDefAtomsW false true p.resource ++ trailingCommaAtoms false true p.trailingComma := by
+  unfold scopeDoc
+  split <;>
+    simp [docAtoms, docAtoms_varDefDoc, docAtoms_droppedCommaDoc, docAtoms_tokDoc _ .space docAtoms_space,
+      docAtoms_tokDoc _ .hardline docAtoms_hardline]
+
+/-- the document of a policy carries the source atoms in source order, minus trailing `,` tokens -/
+theorem policyToDoc_atoms (iw : Nat) (p : PolicyCst) : docAtoms (policyToDoc iw p) = policyAtomsW false true p := by
+  have hrp : docAtoms (tokDoc p.rp (if p.conds.isEmpty then .nil else .hardline)) = wtokAtoms p.rp := by
+    apply docAtoms_tokDoc; split <;> simp [docAtoms]
+  unfold policyToDoc policyAtomsW
+  simp only [doc_append, docAtoms, hrp, docAtoms_annotsDoc, docAtoms_condsDoc, docAtoms_tokDoc _ .nil docAtoms_nil,
+    docAtoms_scopeDoc, docAtoms_leadingDoc]
+  rw [wtokAtoms_noLead p.effect]; simp
+
+theorem docAtoms_policiesToDoc (iw : Nat) (ps : List PolicyCst) : docAtoms (policiesToDoc iw ps) = policiesAtomsW false true ps := by
+  induction ps with
+  | nil => simp [policiesToDoc, policiesAtomsW, docAtoms]
+  | cons p ps ih =>
+    cases ps with
+    | nil => simp [policiesToDoc, policiesAtomsW, policyToDoc_atoms]
+    | cons p' ps' => simp [policiesToDoc, policiesAtomsW, docAtoms, policyToDoc_atoms] at ih ⊢; exact ih
+
+theorem itemsAtoms_append (a b : List Item) : itemsAtoms (a ++ b) = itemsAtoms a ++ itemsAtoms b := by
+  induction a with
+  | nil => simp [itemsAtoms]
+  | cons x a ih => cases x <;> simp [itemsAtoms, ih]
+
+theorem itemsAtoms_eofItems (eof : List (List Char)) : itemsAtoms (eofItems eof) = eof.map Atom.com := by
+  induction eof with
+  | nil => simp [eofItems, itemsAtoms]
+  | cons c cs ih => simp [eofItems, itemsAtoms, ih]
+
+theorem itemsAtoms_joinPolicies (xs : List (List Item)) : itemsAtoms (joinPolicies xs) = (xs.map itemsAtoms).flatten := by
+  induction xs with
+  | nil => simp [joinPolicies, itemsAtoms]
+  | cons x xs ih =>
+    cases xs with
+    | nil => simp [joinPolicies]
+    | cons y ys => simp [joinPolicies, itemsAtoms_append, itemsAtoms] at ih ⊢; exact ih
+
+/-! comments kept at the policy level -/
+
+theorem varDef_comments_kept (v : VarDefCst) : commentsOf (varDefAtomsW false true v) = commentsOf (varDefAtomsW true true v) := by
+  obtain ⟨var, isPart, ineq⟩ := v
+  cases isPart <;> cases ineq <;> simp [varDefAtomsW, commentsOf_append, cst_comments_kept]
+
+theorem conds_comments_kept (cs : List CondCst) : commentsOf (condsAtomsW false true cs) = commentsOf (condsAtomsW true true cs) := by
+  induction cs with
+  | nil => simp [condsAtomsW]
+  | cons c cs ih =>
+    obtain ⟨kw, lb, expr, rb⟩ := c
+    cases expr <;> simp [condsAtomsW, condAtomsW, commentsOf_append, cst_comments_kept, ih]
+
+theorem policy_comments_kept (p : PolicyCst) : commentsOf (policyAtomsW false true p) = commentsOf (policyAtomsW true true p) := by
+  simp [policyAtomsW, commentsOf_append, varDef_comments_kept, conds_comments_kept, commentsOf_trailingComma]
+
+theorem policies_comments_kept (ps : List PolicyCst) : commentsOf (policiesAtomsW false true ps) = commentsOf (policiesAtomsW true true ps) := by
+  induction ps with
+  | nil => simp [policiesAtomsW]
+  | cons p ps ih => simp [policiesAtomsW, commentsOf_append, policy_comments_kept, ih]
+
+/-! comment safety at the policy level -/
+
+theorem docSafe_hardline' : docSafe false Doc.hardline = some false := by simp [docSafe]
+theorem docSafe_space' : docSafe false Doc.space = some false := by simp [docSafe]
+
+theorem docSafe_trailingDoc (t : List Char) (next : Doc) (hn : docSafe false next = some false) :
+    docSafe false (trailingDoc t next) = some false := by
+  unfold trailingDoc; split <;> simp [docSafe, hn]
+
+theorem docSafe_annotDoc (a : AnnotCst) : docSafe false (annotDoc a) = some false := by
+  obtain ⟨atT, key, value⟩ := a
+  cases value with
+  | none => simp [annotDoc, docSafe, docSafe_tokDoc _ .nil docSafe_nil]
+  | some v =>
+    obtain ⟨l, v, r⟩ := v
+    simp [annotDoc, docSafe, docSafe_tokDoc _ .nil docSafe_nil, docSafe_tokDoc _ .hardline docSafe_hardline']
+
+theorem docSafe_annotsDoc (as : List AnnotCst) : docSafe false (annotsDoc as) = some false := by
+  induction as with
+  | nil => simp [annotsDoc, docSafe]
+  | cons a as ih => simp [annotsDoc, docSafe, docSafe_annotDoc, ih]
+
+theorem docSafe_isPartDoc (iw : Nat) (x : Option (WTok × Cst)) : docSafe false (isPartDoc iw x) = some false := by
+  cases x with
+  | none => simp [isPartDoc, docSafe]
+  | some x =>
+    obtain ⟨isT, ty⟩ := x
+    simp [isPartDoc, docSafe, docSafe_tokDoc _ .nil docSafe_nil, toDocFixed,
+      docSafe_addComment _ _ _ _ (toDocW_safe true iw ty) docSafe_nil]
+
+theorem docSafe_varDefDoc (iw : Nat) (v : VarDefCst) : docSafe false (varDefDoc iw v) = some false := by
+  obtain ⟨var, isPart, ineq⟩ := v
+  cases ineq with
+  | none => simp [varDefDoc, docSafe, docSafe_tokDoc _ .nil docSafe_nil, docSafe_isPartDoc]
+  | some x =>
+    obtain ⟨op, rhs⟩ := x
+    simp [varDefDoc, docSafe, docSafe_tokDoc _ .nil docSafe_nil, docSafe_isPartDoc, docSafe_leadingDoc,
+      docSafe_trailingDoc _ _ docSafe_nil, toDocFixed, toDocW_safe]
+
+theorem docSafe_condDoc (iw : Nat) (c : CondCst) : docSafe false (condDoc iw c) = some false := by
+  obtain ⟨kw, lb, expr, rb⟩ := c
+  have hkw : docSafe false (addComment (.text (.tok kw.text)) [] [] .nil) = some false :=
+    docSafe_addComment _ _ _ _ (by simp [docSafe]) docSafe_nil
+  cases expr with
+  | none =>
+    simp [condDoc, docSafe, docSafe_tokDoc _ .nil docSafe_nil, docSafe_leadingDoc, docSafe_trailingDoc _ _ docSafe_line, hkw]
+  | some e =>
+    simp [condDoc, docSafe, docSafe_tokDoc _ .nil docSafe_nil, docSafe_leadingDoc, docSafe_trailingDoc _ _ docSafe_line, hkw,
+      toDocFixed, toDocW_safe]
+
+theorem docSafe_condsDoc (iw : Nat) (cs : List CondCst) : docSafe false (condsDoc iw cs) = some false := by
+  induction cs with
+  | nil => simp [condsDoc, docSafe]
+  | cons c cs ih =>
+    cases cs with
+    | nil => simp [condsDoc, docSafe_condDoc]
+    | cons c' cs' => simp [condsDoc, docSafe, docSafe_condDoc] at ih ⊢; exact ih
+
+theorem docSafe_droppedCommaDoc (tc : Option WTok) : docSafe false (droppedCommaDoc tc) = some false := by
+  cases tc with
+  | none => simp [droppedCommaDoc, docSafe_addComment _ _ _ _ docSafe_nil docSafe_nil]
+  | some t => simp [droppedCommaDoc, commentsOnlyDoc, docSafe_addComment _ _ _ _ docSafe_nil docSafe_nil]
+
+theorem docSafe_scopeDoc (iw : Nat) (p : PolicyCst) : docSafe false (scopeDoc iw p) = some false := by
+  unfold scopeDoc
+  split <;>
+    simp [docSafe, docSafe_varDefDoc, docSafe_droppedCommaDoc, docSafe_tokDoc _ .space docSafe_space',
+      docSafe_tokDoc _ .hardline docSafe_hardline']
+
+/-- in the document of a policy every comment is followed by a hardline before the next token -/
+theorem policyToDoc_safe (iw : Nat) (p : PolicyCst) : docSafe false (policyToDoc iw p) = some false := by
+  have hrp : docSafe false (tokDoc p.rp (if p.conds.isEmpty then .nil else .hardline)) = some false := by
+    apply docSafe_tokDoc; split <;> simp [docSafe]
+  unfold policyToDoc
+  simp only [doc_append, docSafe, hrp, docSafe_annotsDoc, docSafe_condsDoc, docSafe_tokDoc _ .nil docSafe_nil, docSafe_leadingDoc,
+    docSafe_scopeDoc]
+
+/-- the concatenation of comment-safe layouts that each end a line is comment-safe -/
+theorem itemsVisible_append_nl (a : List Item) (as : List Atom) (i : Nat) (b : List Item) (bs : List Atom) :
+    ∀ p, itemsVisible p a = some as → itemsVisible false b = some bs →
+      itemsVisible p (a ++ (.nl i :: b)) = some (as ++ bs) := by
+  induction a generalizing as with
+  | nil => intro p ha hb; simp [itemsVisible] at ha; subst ha; simp [itemsVisible, hb]
+  | cons x a ih =>
+    intro p ha hb
+    cases x with
+    | atom at' =>
+      cases at' with
+      | tok t =>
+        cases p <;> simp [itemsVisible] at ha
+        obtain ⟨as', h1, h2⟩ := ha
+        subst h2
+        simp [itemsVisible, ih as' false h1 hb]
+      | com c =>
+        cases p <;> simp [itemsVisible] at ha
+        obtain ⟨as', h1, h2⟩ := ha
+        subst h2
+        simp [itemsVisible, ih as' true h1 hb]
+    | sp => simp only [itemsVisible, List.cons_append] at ha ⊢; exact ih as p ha hb
+    | nl j => simp only [itemsVisible, List.cons_append] at ha ⊢; exact ih as false ha hb
+
+theorem itemsVisible_eofItems (eof : List (List Char)) : itemsVisible false (eofItems eof) = some (eof.map Atom.com) := by
+  induction eof with
+  | nil => simp [eofItems, itemsVisible]
+  | cons c cs ih => simp [eofItems, itemsVisible, ih]
+
+theorem policiesAtomsW_flatten (kt kc : Bool) (ps : List PolicyCst) :
+    policiesAtomsW kt kc ps = (ps.map (policyAtomsW kt kc)).flatten := by
+  induction ps with
+  | nil => simp [policiesAtomsW]
+  | cons p ps ih => simp [policiesAtomsW, ih]
+
+theorem itemsVisible_joinPolicies (f : PolicyCst → List Item) (g : PolicyCst → List Atom)
+    (h : ∀ p, itemsVisible false (f p) = some (g p)) (ps : List PolicyCst) :
+    itemsVisible false (joinPolicies (ps.map f)) = some ((ps.map g).flatten) := by
+  induction ps with
+  | nil => simp [joinPolicies, itemsVisible]
+  | cons p ps ih =>
+    cases ps with
+    | nil => simp [joinPolicies, h]
+    | cons p' ps' =>
+      have ih' : itemsVisible false (Item.nl 0 :: joinPolicies ((p' :: ps').map f)) = some (((p' :: ps').map g).flatten) := by
+        simpa [itemsVisible] using ih
+      have := itemsVisible_append_nl (f p) (g p) 0 _ _ false (h p) ih'
+      simpa [joinPolicies] using this
+
+/-! only trailing `,` tokens are dropped: the kept atoms are a subsequence of the source -/
+
+theorem wtokComments_sublist (t : WTok) : (wtokComments t).Sublist (wtokAtoms t) := by
+  simp only [wtokComments, wtokAtoms, List.append_assoc]
+  exact List.Sublist.append (List.Sublist.refl _) (List.sublist_append_right _ _)
+
+theorem trailingComma_sublist (tc : Option WTok) : (trailingCommaAtoms false true tc).Sublist (trailingCommaAtoms true true tc) := by
+  cases tc with
+  | none => exact List.Sublist.refl _
+  | some t => simpa [trailingCommaAtoms] using wtokComments_sublist t
+
+/-- splits a goal `(a ++ b ++ …).Sublist (a' ++ b' ++ …)` componentwise -/
+local macro "sublist_parts" : tactic =>
+  `(tactic| repeat' (first | exact List.Sublist.refl _ | assumption | exact trailingComma_sublist _ | apply List.Sublist.append))
+
+mutual
+theorem cst_sublist : ∀ c : Cst, (cstAtomsW false true c).Sublist (cstAtomsW true true c)
+  | .leaf t => by simp [cstAtomsW]
+  | .paren l e r => by have := cst_sublist e; simp only [cstAtomsW]; sublist_parts
+  | .unary ops e => by have := cst_sublist e; simp only [cstAtomsW]; sublist_parts
+  | .chain k first rest => by
+    have := cst_sublist first; have := chain_sublist rest; simp only [cstAtomsW]; sublist_parts
+  | .rel a op b => by have := cst_sublist a; have := cst_sublist b; simp only [cstAtomsW]; sublist_parts
+  | .isIn a isT ty inT e => by
+    have := cst_sublist a; have := cst_sublist ty; have := cst_sublist e; simp only [cstAtomsW]; sublist_parts
+  | .ite i c t a e b => by
+    have := cst_sublist c; have := cst_sublist a; have := cst_sublist b; simp only [cstAtomsW]; sublist_parts
+  | .brack l args r => by have := args_sublist args; simp only [cstAtomsW]; sublist_parts
+  | .recInit k colon v => by have := cst_sublist k; have := cst_sublist v; simp only [cstAtomsW]; sublist_parts
+  | .member item accs => by have := cst_sublist item; have := accs_sublist accs; simp only [cstAtomsW]; sublist_parts
+theorem args_sublist : ∀ a : Args, (argsAtomsW false true a).Sublist (argsAtomsW true true a)
+  | .nil => by simp [argsAtomsW]
+  | .last e tc => by have := cst_sublist e; simp only [argsAtomsW]; sublist_parts
+  | .cons e comma rest => by have := cst_sublist e; have := args_sublist rest; simp only [argsAtomsW]; sublist_parts
+theorem chain_sublist : ∀ c : Chain, (chainAtomsW false true c).Sublist (chainAtomsW true true c)
+  | .nil => by simp [chainAtomsW]
+  | .cons op e rest => by have := cst_sublist e; have := chain_sublist rest; simp only [chainAtomsW]; sublist_parts
+theorem accs_sublist : ∀ a : Accs, (accsAtomsW false true a).Sublist (accsAtomsW true true a)
+  | .nil => by simp [accsAtomsW]
+  | .field dot name rest => by have := accs_sublist rest; simp only [accsAtomsW]; sublist_parts
+  | .call l args r rest => by have := args_sublist args; have := accs_sublist rest; simp only [accsAtomsW]; sublist_parts
+  | .index l e r rest => by have := cst_sublist e; have := accs_sublist rest; simp only [accsAtomsW]; sublist_parts
+end
+
+theorem varDef_sublist (v : VarDefCst) : (varDefAtomsW false true v).Sublist (varDefAtomsW true true v) := by
+  obtain ⟨var, isPart, ineq⟩ := v
+  cases isPart with
+  | none =>
+    cases ineq with
+    | none => simp [varDefAtomsW]
+    | some x => have := cst_sublist x.2; simp only [varDefAtomsW]; sublist_parts
+  | some y =>
+    have := cst_sublist y.2
+    cases ineq with
+    | none => simp only [varDefAtomsW]; sublist_parts
+    | some x => have := cst_sublist x.2; simp only [varDefAtomsW]; sublist_parts
+
+theorem conds_sublist (cs : List CondCst) : (condsAtomsW false true cs).Sublist (condsAtomsW true true cs) := by
+  induction cs with
+  | nil => simp [condsAtomsW]
+  | cons c cs ih =>
+    obtain ⟨kw, lb, expr, rb⟩ := c
+    cases expr with
+    | none => simp only [condsAtomsW, condAtomsW]; sublist_parts
+    | some e => have := cst_sublist e; simp only [condsAtomsW, condAtomsW]; sublist_parts
+
+theorem policy_sublist (p : PolicyCst) : (policyAtomsW false true p).Sublist (policyAtomsW true true p) := by
+  have := varDef_sublist p.principal; have := varDef_sublist p.action; have := varDef_sublist p.resource
+  have := conds_sublist p.conds
+  simp only [policyAtomsW]; sublist_parts
 
 end Cedar.Fmt
